@@ -438,4 +438,6 @@ def run(ctx, led):
     run_rule(led, "T11", "ENTRY-GUARD: add_clause / add_propagator leave at once in every inconsistent state (guard truth tables interpreted from MIR)", t_guards, ctx, res)
     from . import predrules as _pr
     run_rule(led, "T12", "is_mutually_exclusive_with is sound, so extract_core does not panic on consistent assumptions (shared with C05-A12)", _pr.mutex_sound, ctx)
+    from . import protocol as _proto
+    run_rule(led, "T14", "PROTOCOL: SolutionIterator reports Unsatisfiable only before, and Finished only after, it handed out a solution (finite abstraction of its flag fields)", _proto.iterator_protocol, ctx)
     run_rule(led, "T13", "a stored solution claims exactly the variables that existed when it was taken", t_contains, ctx, res)
